@@ -140,7 +140,7 @@ class Session(object):
         from whoosh.filedb.filestore import FileStorage
         if self.real_dir is not None:
             path = self.real_dir + path
-        return FileStorage(path, supports_mmap=not self.cfg.hide_fileno)
+        return FileStorage(path, supports_mmap=(getattr(self.cfg, "mmap", True) and not self.cfg.hide_fileno))
 
     def index_exists(self, path=INDEX_DIR):
         if self.real_dir is not None:
